@@ -101,10 +101,12 @@ def sh(cmd, timeout, cwd=None, env=None):
 
 def regen():
     sys.path.insert(0, os.path.join(VERIF, 'tools'))
-    import importlib
+    import importlib, fcntl
     import regen as rg
     importlib.reload(rg)
-    changed, failed = rg.regen(REPO, os.path.join(COQ, 'gen'))
+    with open(os.path.join(COQ, '.build.lock'), 'w') as lk:
+        fcntl.flock(lk, fcntl.LOCK_EX)
+        changed, failed = rg.regen(REPO, os.path.join(COQ, 'gen'))
     return changed, failed
 
 
@@ -116,15 +118,16 @@ def ensure_makefile():
 
 
 def make(targets, timeout=1800, jobs=None):
+    # one build at a time in coq/ (checks of different properties may run concurrently)
     ensure_makefile()
-    cmd = 'make -k -j%d %s' % (jobs or NPROC, ' '.join(targets))
+    cmd = 'flock %s make -k -j%d %s' % (os.path.join(COQ, '.build.lock'), jobs or NPROC, ' '.join(targets))
     return sh(cmd, timeout, cwd=COQ)
 
 
 def changed_defs():
     """names of generated definitions whose text differs from coq/gen_baseline"""
     out = []
-    base = os.path.join(COQ, 'gen_baseline')
+    base = os.path.join(VERIF, 'baseline', 'gen')
     gen = os.path.join(COQ, 'gen')
     if not os.path.isdir(base):
         return out
@@ -163,7 +166,7 @@ def prove(pid, timeout=1500):
     vo = os.path.join(COQ, 'props', pid + '.vo')
     src = os.path.join(COQ, 'props', pid + '.v')
     # always re-run coqc on the props file to capture Print Assumptions (needs deps built)
-    rc2, out = sh('coqc -Q . LBG props/%s.v' % pid, 600, cwd=COQ)
+    rc2, out = sh('flock %s coqc -Q . LBG props/%s.v' % (os.path.join(COQ, '.build.lock'), pid), 900, cwd=COQ)
     res['props_out'] = out[-6000:]
     if rc2 == 0 and rc == 0:
         res['ok'] = True
@@ -193,12 +196,13 @@ def prove(pid, timeout=1500):
 def run_cases(stem, imports, preamble, cases, chunk=400, timeout=900):
     """evaluate boolean Gallina expressions with vm_compute inside Coq.
     cases: list of Coq terms of type bool.  returns list of bools (None = Coq error)."""
-    os.makedirs(WORK, exist_ok=True)
+    work = os.path.join(WORK, '%s_%d' % (stem, os.getpid()))
+    os.makedirs(work, exist_ok=True)
     files = []
     for ci in range(0, len(cases), chunk):
         part = cases[ci:ci + chunk]
         name = '%s_%d' % (stem, ci // chunk)
-        path = os.path.join(WORK, name + '.v')
+        path = os.path.join(work, name + '.v')
         with open(path, 'w') as f:
             f.write('From LBG Require Import %s.\nOpen Scope Q_scope.\n%s\n' % (' '.join(imports), preamble))
             f.write('Definition cases : list bool := [\n' + ';\n'.join(part) + '\n].\n')
@@ -208,10 +212,11 @@ def run_cases(stem, imports, preamble, cases, chunk=400, timeout=900):
     procs = []
     for name, path, n in files:
         procs.append((n, subprocess.Popen('ulimit -s unlimited 2>/dev/null; timeout %d coqc -Q %s LBG -Q %s LBGW %s' % (
-            timeout, COQ, WORK, path), shell=True, stdout=subprocess.PIPE, stderr=subprocess.STDOUT, text=True, cwd=WORK)))
+            timeout, COQ, work, path), shell=True, stdout=subprocess.PIPE, stderr=subprocess.STDOUT, text=True, cwd=work)))
         if len(procs) >= NPROC:
             results += _collect(procs); procs = []
     results += _collect(procs)
+    shutil.rmtree(work, ignore_errors=True)
     return results
 
 
